@@ -199,6 +199,8 @@ def family_cross(tier, seed, n=None):
             vars_.setdefault("gx", {"w": 1})
             x["iff"] = "gx"
         shape = {"cls": "CGX", "vars": vars_, "cps": cps, "xs": [x]}
+        if t % 5 == 4:
+            shape["objsample"] = 2 + t % 2        # the covergroup samples objects handed over in turn
         gates = [v for v in vars_ if v.startswith("g")]
         doms = [range(1 << vars_[v]["w"]) for v in vars_ if not v.startswith("g")]
         names = [v for v in vars_ if not v.startswith("g")]
